@@ -216,6 +216,9 @@ func NewACL(ctx context.Context, policies []*Policy) (*ACL, error) {
 							existingPerms.AllowedParameters[key] = []any{}
 						} else {
 							// Merge the two maps, appending values on key conflict.
+							// The value belongs to the (cached, shared) policy:
+							// never append into its spare capacity.
+							value = slices.Clone(value)
 							existingPerms.AllowedParameters[key] = append(value, existingPerms.AllowedParameters[key]...)
 						}
 					}
@@ -238,6 +241,8 @@ func NewACL(ctx context.Context, policies []*Policy) (*ACL, error) {
 							existingPerms.DeniedParameters[key] = []any{}
 						} else {
 							// Merge the two maps, appending values on key conflict.
+							// See note above: do not alias the policy's slice.
+							value = slices.Clone(value)
 							existingPerms.DeniedParameters[key] = append(value, existingPerms.DeniedParameters[key]...)
 						}
 					}
@@ -247,6 +252,8 @@ func NewACL(ctx context.Context, policies []*Policy) (*ACL, error) {
 			if len(pc.Permissions.RequiredParameters) > 0 {
 				if len(existingPerms.RequiredParameters) == 0 {
 					existingPerms.RequiredParameters = pc.Permissions.RequiredParameters
+					// Later merges append to this list; see note above.
+					existingPerms.RequiredParameters = slices.Clone(existingPerms.RequiredParameters)
 				} else {
 					for _, v := range pc.Permissions.RequiredParameters {
 						if !slices.Contains(existingPerms.RequiredParameters, v) {
